@@ -223,3 +223,10 @@ def run(P, rep, tier):
                           'different bytes' % (txt, ev.fn), path=['to_bytes', ev.fn])
     else:
         rep.ok(r4, 'to_bytes', {'paths': m})
+
+    # ---- R5 encoding scopes of both layers (shared with C04) -----------------------------------------
+    from sa.props.c04 import reader_scope_rule, writer_scope_rule
+    r5a = rep.rule('C06-R5r', 'reader encoding scopes follow the nesting oracle (K1): parsing decodes with the declared encodings', reference=286)
+    r5b = rep.rule('C06-R5w', 'writer encoding scopes follow the same oracle (K1): re-serialising encodes with the same ones', reference=20)
+    reader_scope_rule(P, rep, r5a)
+    writer_scope_rule(P, rep, r5b)
